@@ -36,7 +36,7 @@ def run(ctx):
         if m["kind"] == "zero" and m["key"].startswith("zero:lod"):
             key = "zero:lod"          # one defect: LOD() of a zero-value Encoder
         ctx.violation(key, "replayed history diverges from Encoder/Protocol model: " + m["kind"], m)
-    fams = ["illegal", "wellformed", "longruns", "zerofirst"]
+    fams = ["illegal", "wellformed", "runs", "longruns", "zerofirst"]
     r = enccheck.run_enc_traces(ctx, fams, 300 if quick else 30000, ["err", "mode", "run"])
     for kind, ds in r["diags"].items():
         for d in ds:
